@@ -33,7 +33,7 @@ where
         let pool = self.pool.as_ref()?;
         let inner = pool.inner.lock();
 
-        let mut connecting: Vec<usize> = inner.connecting.iter().map(|t| t.verif_raw()).collect();
+        let mut connecting: Vec<usize> = inner.connecting.keys().map(|t| t.verif_raw()).collect();
         connecting.sort_unstable();
 
         let mut waiting: Vec<(usize, usize, usize)> = inner
